@@ -69,7 +69,8 @@ func (c *c06Oracle) Check(w *World, o *Obs) []Violation {
 			newPw = formValue(o.ReqBody, "password", w.Cfg.JSON)
 		}
 		tok := o.presented("token")
-		for p, after := range o.RowsAfter {
+		for _, p := range sortedRowKeys(o.RowsAfter) {
+			after := o.RowsAfter[p]
 			if before := o.RowsBefore[p]; before != nil && before.Password != after.Password {
 				pid, ack = p, true
 			}
